@@ -1208,6 +1208,32 @@ def int_of(t, _depth=0):
     return None
 
 
+def range_bounds(r, limit=None):
+    """(start, end_exclusive) of a constant range term in any of its spellings (`a..b`, `a..=b`, `..b`, `..=b`, `a..`, `..`);
+    None if it is not a range with constant bounds.  `limit` = length of the indexed object (needed for `a..` and `..`)."""
+    r = strip_identity(r)
+    def ends(name):
+        return r[0] == "agg" and r[2].endswith(name)
+    if r[0] == "call" and name_matches(r[1], "RangeInclusive::new"):
+        a, e = int_of(r[2][0]), int_of(r[2][1])
+        return (a, e + 1) if a is not None and e is not None else None
+    if ends("range::Range::Range"):
+        a, e = int_of(r[3][0]), int_of(r[3][1])
+        return (a, e) if a is not None and e is not None else None
+    if ends("range::RangeTo::RangeTo"):
+        e = int_of(r[3][0])
+        return (0, e) if e is not None else None
+    if ends("range::RangeToInclusive::RangeToInclusive"):
+        e = int_of(r[3][0])
+        return (0, e + 1) if e is not None else None
+    if ends("range::RangeFrom::RangeFrom") and limit is not None:
+        a = int_of(r[3][0])
+        return (a, limit) if a is not None else None
+    if r[0] == "agg" and r[2].endswith("range::RangeFull") and limit is not None:
+        return (0, limit)
+    return None
+
+
 def vec_macro_elements(body, o, t):
     """Element terms of a `vec![a, b, ..]` value (lowered as Box::new_uninit + array write + into_vec)."""
     s = strip_identity(t)
@@ -2240,9 +2266,18 @@ def is_param_or_upvar(t, name):
 def static_bounds_ok(site, b):
     """A `BoundsCheck { len: const N, index: <local> }` assert whose index is a compile-time constant < N can never fail
     (e.g. `buf[7] = x` on a `[u8; 8]`): it needs no entry in a panic inventory."""
+    t = b.blocks[site["bb"]]["t"]
+    if site.get("what") == "assert:Overflow":
+        # arithmetic on two compile-time constants whose exact result is a small non-negative number cannot overflow any
+        # integer type (`OFFSET + 1` on named constants is lowered to a checked add at mir-opt-level 0)
+        c = t.get("cond")
+        ct = strip_identity(Origins(b).of_operand(c)) if c else ("unknown",)
+        if ct[0] == "field" and ct[2] == "1" and ct[1][0] == "binop" and ct[1][1] in ("AddWithOverflow", "SubWithOverflow", "MulWithOverflow"):
+            v = int_of(("field", ct[1], "0"))
+            return v is not None and 0 <= v <= 127
+        return False
     if site.get("what") != "assert:BoundsCheck":
         return False
-    t = b.blocks[site["bb"]]["t"]
     m = __import__("re").match(r"BoundsCheck \{ len: const (\d+)_usize, index: (?:copy|move) _(\d+) \}", t.get("msg") or "")
     if not m:
         return False
